@@ -171,13 +171,42 @@ def judge_grammar(acc, kind, s, n, k, unit, got, raised, srv):
 
 def _grammar_shard(ip_and_maxfrac):
     ip, maxfrac = ip_and_maxfrac
-    parse, srvv, VE = _fns()
-    acc = Acc()
     fracs = [None] if ip else []
     for fl in range(1, maxfrac + 1):
         fracs.extend(''.join(t) for t in itertools.product(DIGITS, repeat=fl))
+    return _run_numbers([(ip, fp) for fp in fracs])
+
+
+LONG_Z = {'quick': (1, 2, 5, 9, 14, 15, 16, 17, 18, 19, 20, 24, 27, 28, 29, 30, 33, 40), 'thorough': tuple(range(1, 61))}
+
+
+def long_numbers(tier):
+    """Part L: numbers with many digits that sit a hair above / below a whole unit, or have a long integer part: binary floating
+    point (53 bits ~ 16 digits), Decimal's default context (28 digits) or any other fixed precision shows up here."""
+    out = []
+    for z in LONG_Z[tier]:
+        for ip in ('', '0', '1', '2', '9', '12', '1023'):
+            out.append((ip, '0' * z + '1'))            # a hair above ip
+            out.append((ip, '9' * z))                  # a hair below ip + 1
+            out.append((ip, '5' + '0' * z + '1'))      # a hair above ip.5
+            out.append((ip, '4' + '9' * z))            # a hair below ip.5
+            out.append((ip, '0' * z + '1' + '0' * 3))  # trailing zeros
+        for ip in ('1' + '0' * z, '9' * z, '1' + '0' * (z - 1) + '1'):
+            out.append((ip, None))
+            out.append((ip, '5'))
+            out.append((ip, '0' * 20 + '1'))
+    return [(ip, fp) for ip, fp in out if ip or fp]
+
+
+def _long_shard(pairs):
+    return _run_numbers(pairs)
+
+
+def _run_numbers(pairs):
+    parse, srvv, VE = _fns()
+    acc = Acc()
     samples = []
-    for fp in fracs:
+    for ip, fp in pairs:
         num = ip if fp is None else f'{ip}.{fp}'
         n = int(ip + (fp or ''))
         k = len(fp or '')
@@ -289,7 +318,7 @@ def _near_shard(strings):
 
 def _dispatch(item):
     tag, arg = item
-    return {'g': _grammar_shard, 's': _short_shard, 'n': _near_shard}[tag](arg)
+    return {'g': _grammar_shard, 's': _short_shard, 'n': _near_shard, 'l': _long_shard}[tag](arg)
 
 
 def _selfcheck():
@@ -319,6 +348,9 @@ def check(tier, seed, procs):
     items.append(('n', ['']))  # the empty string
     for c in SHORT_ALPHABET:
         items.append(('s', (c, L)))
+    ln = long_numbers(tier)
+    for i in range(0, len(ln), 60):
+        items.append(('l', ln[i : i + 60]))
     nm = near_misses()
     for i in range(0, len(nm), 400):
         items.append(('n', nm[i : i + 400]))
@@ -348,7 +380,7 @@ def check(tier, seed, procs):
         'samples': samples + [{'kind': v['replay']['kind'], 'input': v['replay']['s'], 'failure': v['signature']} for v in violations[:4]],
         'exhaustive': True,
         'bounds': f'grammar: integer digits -> max fraction digits {b} (0 = leading-dot form), optional +, all units (m | K Ki .. P Pi, optional B); '
-                  f'all strings of length <= {L} over {len(SHORT_ALPHABET)} characters; {len(nm)} one-edit neighbours of {len(NEAR_MISS_BASES)} base spellings',
+                  f'{len(ln)} long numbers (up to {max(LONG_Z[tier]) + 5} digits: a hair above / below a whole unit or half unit, long integer parts); all strings of length <= {L} over {len(SHORT_ALPHABET)} characters; {len(nm)} one-edit neighbours of {len(NEAR_MISS_BASES)} base spellings',
         'grammar_strings_with_exact_value': exact,
         'grammar_strings_needing_rounding': rounded,
         'per_function_evaluations': {k: acc.c.get(f'{k}:evaluated', 0) for k in KINDS},
@@ -370,7 +402,7 @@ def check(tier, seed, procs):
             'client-side acceptance = parse_* returns a value (LocalBackend, BatchPoolExecutor) and hailctl config validation lambdas (cpu, memory); '
             'server-side acceptance = batch.front_end.validate.job_validator["resources"][key].validate does not raise',
             'strings outside the documented grammar are judged only for client/server agreement; memory worker-type keywords are not size strings',
-            'digit counts are bounded as stated in bounds; values beyond them are not covered',
+            'digit counts are bounded as stated in bounds (the long-number part samples digit counts and positions, it is not a full enumeration at those lengths); values beyond them are not covered',
         ],
         'vacuous': vac,
     }
